@@ -589,7 +589,7 @@ func TestC07(t *testing.T) {
 			exec(c, func(v *verdict, fc *Case) { run.Violation(v.sig, v.msg, fc) })
 		}
 	}
-	run.Rapid(t, "scripts", ev.Pick(120, 12000), func(rt *rapid.T) {
+	run.Rapid(t, "scripts", ev.Pick(300, 12000), func(rt *rapid.T) {
 		c := genScript(rt)
 		run.Class("mode:" + map[string]string{"": "sync"}[c.Mode] + c.Mode)
 		exec(c, func(v *verdict, fc *Case) {
